@@ -1,56 +1,108 @@
 ---------------------------- MODULE MappingTrace ----------------------------
-(* C09: binds MappingAlgebra (L2) to the code.  Each case is one run of the real passes with a snapshot of
-   PassData (placement, initial_mapping, final_mapping) after every pass and the SwapGates found in the routed
-   circuit before ApplyPlacement.  The run is replayed through MappingAlgebra's own actions with the recorded
-   parameters; after every pass the model's variables must equal the snapshot.  A difference is printed as
-   <<"DRIFT", tid, pass, what>> (the model no longer describes the code: reported, not a violation); a case that
-   ran to its end prints <<"DONE", tid>>.  MappingAlgebra's invariants are checked on every state of the replay. *)
+(* C09: binds MappingAlgebra (L2) to the code.  Each case is one run of a workflow of the real passes (any sequence of
+   SetModel / placement / layout / routing / ApplyPlacement passes on one PassData) with, after every pass, a snapshot
+     after, flavour      which pass ran ("setmodel" | "place" | "layout" | "route" | "apply"; greedy/trivial/static, sabre/pam)
+     n, edges            the machine (setmodel only)
+     placement, im, fm   PassData.placement / initial_mapping / final_mapping
+     swaps               (route) every swap the router applied to its pi, in order (its undo swaps included)
+     cswaps              (route) every SwapGate of the circuit after the pass, in circuit order: what the circuit DOES
+     cand                the circuit was observed at this point (it is as wide as the machine, the placement is the identity)
+   The run is replayed through MappingAlgebra's own actions with the recorded parameters.  After every pass
+   * the model's placement / im / fm must equal the snapshot, and after a routing pass the model's tokens must be where
+     the circuit's own swaps put them; a difference is printed as <<"DRIFT", tid, step, pass, ...>> (the model no
+     longer describes the code: reported, not a violation).  The replay then goes on from the code's values (TResync) or,
+     when the model's action is not enabled on what the code did, by adopting the snapshot (Force): the two shape-only
+     flags legal / applied are carried on in every case;
+   * <<"JUDGE", tid, step>> is printed when legal /\ applied: the circuit observed at this point is one the property
+     speaks about, and the harness hands it to RoutingAbs (L1) with the mappings recorded at this point.
+   A case that ran to its end prints <<"DONE", tid, first drift | "none">>.  MappingAlgebra's invariants are checked on
+   every state of a replay that has not drifted. *)
 EXTENDS MappingAlgebra, Json, IOUtils
 
 Cases == JsonDeserialize(IOEnv.TRACE_FILE)
-VARIABLES tid, s, j, drift
-tvars == <<tid, s, j, drift>>
+VARIABLES tid, s, j, drift, resync
+tvars == <<tid, s, j, drift, resync>>
 C == Cases[tid]
 Snap == C.snaps[s]
-EdgeSet == {{e[1], e[2]} : e \in Range(C.edges)}
+EdgeSet(es) == {{e[1], e[2]} : e \in Range(es)}
 
-TInit == /\ tid \in 1..Len(Cases) /\ s = 2 /\ j = 1 /\ drift = "none"
-         /\ InitFor(Cases[tid].nlog, Cases[tid].nphys)
+TInit == /\ tid \in 1..Len(Cases) /\ s = 1 /\ j = 1 /\ drift = "none" /\ resync = FALSE
+         /\ InitFor(Cases[tid].nlog)
 
+Mark(name) == IF drift = "none" THEN name ELSE drift
 Matches == placement' = Snap.placement /\ im' = Snap.im /\ fm' = Snap.fm
-Judge(name) == IF Matches THEN drift' = drift
-               ELSE drift' = name /\ PrintT(<<"DRIFT", tid, name, <<placement', im', fm'>>, <<Snap.placement, Snap.im, Snap.fm>>>>)
 
-TSetModel == /\ Snap.after = "setmodel" /\ SetModel(EdgeSet) /\ Judge("setmodel") /\ s' = s + 1 /\ UNCHANGED <<tid, j>>
-TPlace == /\ Snap.after = "place"
-          /\ IF Len(Snap.placement) = nl /\ Range(Snap.placement) \subseteq 0..np - 1 /\ Injective(Snap.placement)
-                /\ ConnectedIn(edges, Range(Snap.placement))
-             THEN Place(Snap.placement) /\ Judge("place") /\ s' = s + 1
-             ELSE /\ drift' = "place" /\ PrintT(<<"DRIFT", tid, "place", "placement not admitted by the model", Snap.placement>>)
-                  /\ s' = s /\ UNCHANGED vars
-          /\ UNCHANGED <<tid, j>>
-TLayout == /\ Snap.after = "layout"
-           /\ IF Len(Snap.placement) = nl /\ Range(Snap.placement) = Range(placement) /\ Injective(Snap.placement)
-              THEN Layout([q \in 1..nl |-> IndexOf(placement, Snap.placement[q]) - 1]) /\ Judge("layout") /\ s' = s + 1
-              ELSE /\ drift' = "layout" /\ PrintT(<<"DRIFT", tid, "layout", "not a permutation of the placement", Snap.placement>>)
-                   /\ s' = s /\ UNCHANGED vars
-           /\ UNCHANGED <<tid, j>>
-\* routing: RouteStart, one RouteSwap per recorded swap, RouteEnd
-TRouteStart == /\ Snap.after = "route" /\ phase \in {"placed", "laid"} /\ RouteStart /\ UNCHANGED tvars
-TRouteSwap == /\ Snap.after = "route" /\ phase = "routing" /\ j <= Len(C.swaps)
-              /\ IF SubEdge(C.swaps[j][1], C.swaps[j][2])
-                 THEN RouteSwap(C.swaps[j][1], C.swaps[j][2], FALSE) /\ j' = j + 1 /\ drift' = drift
-                 ELSE /\ drift' = "route" /\ PrintT(<<"DRIFT", tid, "route", "swap not on an edge of the placed subgraph", C.swaps[j]>>)
-                      /\ j' = j /\ UNCHANGED vars
-              /\ UNCHANGED <<tid, s>>
-TRouteEnd == /\ Snap.after = "route" /\ phase = "routing" /\ j = Len(C.swaps) + 1
-             /\ RouteEnd /\ Judge("route") /\ s' = s + 1 /\ UNCHANGED <<tid, j>>
-TApply == /\ Snap.after = "apply" /\ Apply /\ Judge("apply") /\ s' = s + 1 /\ UNCHANGED <<tid, j>>
-TDone == /\ s = Len(C.snaps) + 1 /\ drift = "none"
-         /\ drift' = "done" /\ PrintT(<<"DONE", tid>>)
-         /\ UNCHANGED vars /\ UNCHANGED <<tid, s, j>>
+\* what the circuit's own swaps do to the tokens that enter it
+RECURSIVE Fold(_, _, _)
+Fold(t, sw, k) == IF k > Len(sw) THEN t ELSE Fold(Exch(t, sw[k][1], sw[k][2]), sw, k + 1)
+SwapsOK(sw) == \A k \in 1..Len(sw) : sw[k][1] \in DOMAIN tok0 /\ sw[k][2] \in DOMAIN tok0
+CircuitTokens == Fold(tok0, Snap.cswaps, 1)
 
-TNext == \/ (drift = "none" /\ s <= Len(C.snaps) /\ (TSetModel \/ TPlace \/ TLayout \/ TRouteStart \/ TRouteSwap \/ TRouteEnd \/ TApply))
+\* after a pass the model could take: compare, say whether the circuit is now one the property speaks about
+After(name, same) ==
+  /\ IF same THEN resync' = FALSE /\ drift' = drift
+     ELSE /\ resync' = TRUE /\ drift' = Mark(name)
+          /\ PrintT(<<"DRIFT", tid, s, name, <<placement', im', fm'>>, <<Snap.placement, Snap.im, Snap.fm>>>>)
+  /\ IF legal' /\ applied' /\ Snap.cand THEN PrintT(<<"JUDGE", tid, s>>) ELSE TRUE
+  /\ s' = s + 1 /\ j' = 1 /\ tid' = tid
+
+\* the model's action is not enabled on what the code did: adopt the snapshot, carry the shape-only flags on
+Force(kind, why) ==
+  /\ PrintT(<<"DRIFT", tid, s, kind, why>>)
+  /\ drift' = Mark(kind) /\ resync' = FALSE
+  /\ placement' = Snap.placement /\ im' = Snap.im /\ fm' = Snap.fm
+  /\ legal' = LegalAfter(kind) /\ applied' = AppliedAfter(kind, Snap.flavour, Snap.n)
+  /\ w' = (IF kind = "apply" THEN np ELSE w)
+  /\ np' = (IF kind = "setmodel" THEN Snap.n ELSE np)
+  /\ edges' = (IF kind = "setmodel" THEN EdgeSet(Snap.edges) ELSE edges)
+  /\ phase' = "ready" /\ steps' = steps + 1 /\ lead' = <<>> /\ nsw' = 0
+  /\ pi' = Id(w') /\ tok0' = [x \in 0..w' - 1 |-> x] /\ tok' = [x \in 0..w' - 1 |-> x] /\ tokS' = [x \in 0..w' - 1 |-> x]
+  /\ IF legal' /\ applied' /\ Snap.cand THEN PrintT(<<"JUDGE", tid, s>>) ELSE TRUE
+  /\ s' = s + 1 /\ j' = 1 /\ tid' = tid /\ nl' = nl
+
+TResync == /\ resync
+           /\ placement' = C.snaps[s - 1].placement /\ im' = C.snaps[s - 1].im /\ fm' = C.snaps[s - 1].fm
+           /\ resync' = FALSE
+           /\ UNCHANGED <<nl, w, np, phase, edges, pi, lead, nsw, tok0, tok, tokS, legal, applied, steps, tid, s, j, drift>>
+
+TSetModel == /\ Snap.after = "setmodel" /\ phase \in {"start", "ready"}
+             /\ IF Snap.n >= w THEN SetModel(Snap.n, EdgeSet(Snap.edges)) /\ After("setmodel", Matches)
+                ELSE Force("setmodel", "machine smaller than the circuit")
+TPlace == /\ Snap.after = "place" /\ phase = "ready"
+          /\ IF PlaceOK(Snap.flavour, Snap.placement) THEN Place(Snap.flavour, Snap.placement) /\ After("place", Matches)
+             ELSE Force("place", "placement not admitted by the model")
+TLayout == /\ Snap.after = "layout" /\ phase = "ready"
+           /\ IF /\ PlacedConnected /\ Len(placement) = w /\ Len(Snap.placement) = w
+                 /\ Range(Snap.placement) = Range(placement) /\ Injective(Snap.placement) /\ Injective(placement)
+              THEN Layout(Snap.flavour, [q \in 1..w |-> IndexOf(placement, Snap.placement[q]) - 1]) /\ After("layout", Matches)
+              ELSE Force("layout", "not a permutation of a connected placement")
+\* routing: RouteStart, one RouteSwap per swap the router applied to pi, RouteEnd
+TRouteStart == /\ Snap.after = "route" /\ phase = "ready"
+               /\ IF PlacedConnected /\ Len(placement) = w THEN RouteStart(Snap.flavour) /\ UNCHANGED tvars
+                  ELSE Force("route", "routing ran on a placement the model holds to be disconnected")
+TRouteSwap == /\ Snap.after = "route" /\ phase = "routing" /\ j <= Len(Snap.swaps)
+              /\ LET a == Snap.swaps[j][1] b == Snap.swaps[j][2] IN
+                 IF a \in 0..w - 1 /\ b \in 0..w - 1 /\ SubEdge(a, b)
+                 THEN RouteSwap(a, b, FALSE) /\ j' = j + 1 /\ UNCHANGED <<tid, s, drift, resync>>
+                 ELSE Force("route", "swap not on an edge of the placed subgraph")
+TRouteEnd == /\ Snap.after = "route" /\ phase = "routing" /\ j = Len(Snap.swaps) + 1
+             /\ IF RouteEndOK /\ SwapsOK(Snap.cswaps)
+                THEN RouteEnd /\ After(IF Matches THEN "route-tokens" ELSE "route", Matches /\ tok' = CircuitTokens)
+                ELSE Force("route", "final mapping or swap out of range")
+TApply == /\ Snap.after = "apply" /\ phase = "ready"
+          /\ IF np > 0 /\ ApplyOK THEN Apply /\ After("apply", Matches)
+             ELSE Force("apply", "placement or mappings out of range")
+TDone == /\ s = Len(C.snaps) + 1 /\ ~resync
+         /\ IF TRUE THEN PrintT(<<"DONE", tid, drift>>) ELSE TRUE
+         /\ s' = s + 1
+         /\ UNCHANGED vars /\ UNCHANGED <<tid, j, drift, resync>>
+
+TNext == \/ (~resync /\ s <= Len(C.snaps) /\ (TSetModel \/ TPlace \/ TLayout \/ TRouteStart \/ TRouteSwap \/ TRouteEnd \/ TApply))
+         \/ TResync
          \/ TDone
 TSpec == TInit /\ [][TNext]_<<vars, tvars>>
+
+\* the model's invariants, on replays in which model and code still agree
+TInv == drift = "none" => /\ PublishedAreTokens /\ PiTracksTokens /\ MappingsInjective /\ MappingsInRange
+                          /\ PlacementConnected /\ TokensConserved /\ AppliedMeans
 =============================================================================
